@@ -27,10 +27,12 @@ SOURCE_SPECS = {
     'ops::start_with::StartWithOp': 'next* sub',
     'subject::behavior_subject::BehaviorSubject': 'next sub',
 }
+# documented shape of the one-shot task a scheduled source runs, keyed by the source type (the task function itself is found through
+# the Scheduler::schedule call of that type's actual_subscribe, whatever it is called)
 TASK_SPECS = {
-    'observable::from_future::item_task': 'next complete',
-    'observable::from_future::result_task': '(next complete) | error',
-    'observable::timer::timer_task': 'next complete',
+    'observable::from_future::FutureObservable': 'next complete',
+    'observable::from_future::FutureResultObservable': '(next complete) | error',
+    'observable::timer::TimerObservable': 'next complete',
 }
 
 # ---- S2/S3/S4: envelopes of the Observer methods, keyed by roles.impl_tag; default first
@@ -158,20 +160,36 @@ def s1(cx):
             res.append(Finding(ID, 'S1', label, False, 'source does not follow its documented shape: ' + bad[0], fn['span'], bad[1]))
         else:
             res.append(Finding(ID, 'S1', label, True, "word ⊆ '%s'" % spec, fn['span']))
-    for key, spec in sorted(TASK_SPECS.items()):
-        k = F.crate + '::' + key
-        fn = F.fns.get(k)
-        if fn is None:
-            if not cx.control:
-                res.append(Finding(ID, 'S1', key, False, 'task function named in the source table no longer exists'))
+    from ..core import SCHEDULE, sched_task_fn
+    for im in sorted(F.impls_of('observable::Observable'), key=lambda i: (i['file'], i['line'], i['self_s'])):
+        tag = roles.impl_tag(cx, im)
+        spec = TASK_SPECS.get(tag)
+        if spec is None:
             continue
-        seen.add(key)
+        fn0 = F.impl_fn(im, 'actual_subscribe')
+        g0 = cx.graph(fn0['key'])
+        k = None
+        for x in g0.nodes:
+            if x['kind'] in ('call', 'enter') and x['name'] == SCHEDULE:
+                info = sched_task_fn(cx, x)
+                if info and info[1]:
+                    k = info[1]
+        key = 'task of ' + tag
+        fn = F.fns.get(k) if k else None
+        if fn is None:
+            res.append(Finding(ID, 'S1', 'table:' + key, False, 'the task function this source schedules could not be identified'))
+            continue
+        seen.add('task:' + tag)
         g = cx.graph(k)
         bad = lang_check(g, spec, _src_event, exact=True, empty_ok=False)
         if bad:
             res.append(Finding(ID, 'S1', key, False, 'task does not follow its documented shape: ' + bad[0], fn['span'], bad[1]))
         else:
             res.append(Finding(ID, 'S1', key, True, "word ⊆ '%s'" % spec, fn['span']))
+    if not cx.control:
+        for tag in TASK_SPECS:
+            if 'task:' + tag not in seen:
+                res.append(Finding(ID, 'S1', 'table:task of ' + tag, False, 'scheduled source not found (fail closed)'))
     if not cx.control:
         for tag in SOURCE_SPECS:
             if tag not in seen:
